@@ -401,6 +401,8 @@ def term_facts(t: Term, pol: bool) -> set[tuple]:
         return out
     if t[0] == 'unop' and t[1] == 'not':
         return out | term_facts(t[2], not pol)
+    if t[0] == 'call' and t[1] == ('var', 'bool') and len(t[2]) == 1 and not t[3]:
+        return out | term_facts(t[2][0], pol)
     if t[0] == 'and' and pol:
         for x in t[1:]:
             out |= term_facts(x, True)
@@ -624,6 +626,9 @@ def eval_term(t: Term, env: dict[Term, int]):
         return a + b if t[1] == '+' else a - b if t[1] == '-' else a * b
     if k == 'ifexp':
         return eval_term(t[2], env) if eval_term(t[1], env) else eval_term(t[3], env)
+    if k == 'call' and t[1] in (('var', 'max'), ('var', 'min')) and t[2] and not t[3]:
+        vals = [eval_term(x, env) for x in t[2]]
+        return max(vals) if t[1][1] == 'max' else min(vals)
     raise NotEvaluable(show(t))
 
 
